@@ -21,16 +21,24 @@ fn polymod_step(chk: u64, value: u64) -> u64 {
     c
 }
 
-fn charset_pos(c: u8) -> u64 {
+/// position of a character in INPUT_CHARSET (255 = not in the set), as a constant table so that
+/// a symbolic character costs one array read instead of a 95-step scan
+const fn inverse_charset() -> [u8; 128] {
+    let mut t = [255u8; 128];
     let mut i = 0;
-    let mut r = 255u64;
     while i < 95 {
-        if INPUT_CHARSET[i] == c {
-            r = i as u64;
-        }
+        t[INPUT_CHARSET[i] as usize] = i as u8;
         i += 1;
     }
-    r
+    t
+}
+const INV: [u8; 128] = inverse_charset();
+fn charset_pos(c: u8) -> u64 {
+    if c < 128 {
+        INV[c as usize] as u64
+    } else {
+        255
+    }
 }
 
 /// BIP-380 descsum_create, checksum part
@@ -109,23 +117,23 @@ fn differential<const N: usize>() {
 
 // @h c10_checksum_diff_2 timeout=1500 mem=8
 #[cfg_attr(kani, kani::proof)]
-#[cfg_attr(kani, kani::unwind(97))]
+#[cfg_attr(kani, kani::unwind(13))]
 pub fn c10_checksum_diff_2() { differential::<2>() }
 
-// @h c10_checksum_diff_3 timeout=3000 mem=10 tier=thorough
+// @h c10_checksum_diff_3 timeout=3000 mem=10
 #[cfg_attr(kani, kani::proof)]
-#[cfg_attr(kani, kani::unwind(97))]
+#[cfg_attr(kani, kani::unwind(13))]
 pub fn c10_checksum_diff_3() { differential::<3>() }
 
 // @h c10_checksum_diff_5 timeout=6000 mem=12 tier=thorough
 #[cfg_attr(kani, kani::proof)]
-#[cfg_attr(kani, kani::unwind(97))]
+#[cfg_attr(kani, kani::unwind(13))]
 pub fn c10_checksum_diff_5() { differential::<5>() }
 
 /// verify_checksum accepts s#checksum(s), returns s, and rejects any other 8 characters.
 // @h c10_verify_roundtrip timeout=3000 mem=10 tier=thorough
 #[cfg_attr(kani, kani::proof)]
-#[cfg_attr(kani, kani::unwind(97))]
+#[cfg_attr(kani, kani::unwind(34))]
 pub fn c10_verify_roundtrip() {
     let (b, n) = any_string::<2>();
     let mut i = 0;
